@@ -4,7 +4,8 @@ G/R: TLC enumerates bookmark forests (spec/Bookmarks.tla: shapes x title/style/c
      outline, exports with api.ExportBookmarksFile, compares with the model, re-imports the export into a document that already has
      bookmarks and exports again (must be identical).  The same forests are also written as hand-made outline dictionaries.
      TLC enumerates outline graphs with cycles / self references (spec/BookmarksRobust.tla) and checks that the visited-set reader
-     terminates; every graph is written as raw dictionaries and the real ExportBookmarksFile / ListBookmarksFile must return."""
+     terminates; every graph is written as raw dictionaries and the real ExportBookmarksFile / ListBookmarksFile must return; the reader
+     itself (pdfcpu.BookmarksForOutlineItem on the unvalidated context) must give the model's verdict (cycle / the same items)."""
 import json, os, shutil, threading
 import vlib
 
@@ -116,15 +117,29 @@ def run(ctx):
                         found.setdefault(key, []).append(r)
                     elif len(set(r["titles"])) != len(r["titles"]):
                         found.setdefault("dup-items|%s" % vlib.digest(r["case"]), []).append(r)
+                    else:
+                        # the reader itself (no validation/repair in front) against the reader model
+                        exp = sorted("N%d" % i for i in r["case"]["out"])
+                        if r["case"]["status"] == "cycle" and r["readerr"] == "":
+                            found.setdefault("reader-vs-model|cycle-not-reported", []).append(r)
+                        elif r["case"]["status"] == "ok" and (r["readerr"] != "" or sorted(r["readitems"]) != exp):
+                            found.setdefault("reader-vs-model|%s" % ("error" if r["readerr"] else "items"), []).append(r)
+                        else:
+                            stats["reader_agrees"] = stats.get("reader_agrees", 0) + 1
         for key, rs in sorted(found.items()):
             r = rs[0]
             kind = key.split("|")[0]
             what = {"hang": "reading bookmarks does not terminate", "crash": "reading bookmarks crashes the process",
-                    "dup-items": "an outline item is exported twice"}[kind]
+                    "dup-items": "an outline item is exported twice",
+                    "reader-vs-model": "pdfcpu.BookmarksForOutlineItem on the unvalidated graph disagrees with the reader model (model: %s, items %s; real: %s %s)" % (
+                        r["case"]["status"], r["case"]["out"], r.get("readerr", "")[-120:] or "ok", r.get("readitems"))}[kind]
+            opname = {"export": "ExportBookmarksFile", "list": "ListBookmarksFile", "read": "ReadContext + pdfcpu.BookmarksForOutlineItem"}.get(r["op"], "ExportBookmarksFile")
+            if kind == "reader-vs-model":
+                opname = "ReadContext + pdfcpu.BookmarksForOutlineItem"
             with lock:
-                ctx.report(key, "%s: api.%s on outline graph n=%d rootTitle=%s ptr=%s (root First,Last; per item First,Last,Next,Prev; -1 absent, 0 root) "
+                ctx.report(key, "%s: %s on outline graph n=%d rootTitle=%s ptr=%s (root First,Last; per item First,Last,Next,Prev; -1 absent, 0 root) "
                            "- %s in %s; %d graphs of this run" % (
-                               what, "ExportBookmarksFile" if r["op"] == "export" else "ListBookmarksFile", r["case"]["n"], r["case"]["rt"],
+                               what, opname, r["case"]["n"], r["case"]["rt"],
                                r["case"]["ptr"], r["detail"][:200], r["where"], len(rs)), r)
 
     def guard(fn):
@@ -155,7 +170,7 @@ def run(ctx):
                exhaustive=bool(ctx.quick),
                forests=stats["cases"], forests_import_rejected_as_modelled=stats["rejected"], forests_roundtripped=stats["nontrivial"],
                outline_graphs=stats["graphs"], graph_outcomes={k: stats[k] for k in ("returned", "hang", "crash")},
-               model_vs_real_matrix=stats.get("matrix", {}))
+               model_vs_real_matrix=stats.get("matrix", {}), reader_agrees_with_model=stats.get("reader_agrees", 0))
         ev.assume("expected trees come from spec/Bookmarks.tla: Export = Clean (control characters are not part of exported titles, items without "
                   "visible title are not exported), Import requires Ordered (target pages exist, sibling pages ascending, first kid not before its parent)",
                   "a call is a hang when the child process burns > 0.4 s CPU in it (normal: a few ms) or makes no progress for 60 s",
